@@ -8,7 +8,7 @@
 (* the initial state.  A step the specification cannot explain is printed  *)
 (* as a REJECT line and the rest of that trace is skipped (dead).          *)
 (***************************************************************************)
-EXTENDS BtData, Json, TLC
+EXTENDS BtData, ChunkSM, Json, TLC
 
 Trace == ndJsonDeserialize("trace.ndjson")
 
@@ -46,7 +46,20 @@ RespOK(e, exp) ==
                                    /\ \A i \in 1..Len(got.entries) : (got.entries[i] = 0) = exp.entries[i]
          [] e.ev = "CheckAndMutate" -> got.matched = exp.matched
          [] e.ev = "ReadModifyWrite" -> ObsRowOK(got.row, exp.row)
-         [] e.ev = "ReadRows" -> RowsOK(got.rows, exp.rows)
+         [] e.ev = "ReadRows" -> /\ RowsOK(got.rows, exp.rows)
+                                 \* when the raw chunk stream was logged: it is well formed and decodes to the same rows
+                                 /\ Len(got.chunks) > 0 =>
+                                      /\ WellFormed(got.chunks)
+                                      /\ LET d == Decode(got.chunks) IN
+                                         /\ Len(d) = Len(got.rows)
+                                         /\ \A i \in 1..Len(d) :
+                                              /\ d[i].k = got.rows[i].k
+                                              /\ Len(d[i].cols) = Len(got.rows[i].cols)
+                                              /\ \A n \in 1..Len(d[i].cols) :
+                                                   /\ d[i].cols[n].f = got.rows[i].cols[n].f
+                                                   /\ d[i].cols[n].q = got.rows[i].cols[n].q
+                                                   /\ d[i].cols[n].cells = StripCells(got.rows[i].cols[n].cells)
+         [] e.ev = "SampleRowKeys" -> SampleOK(got.samp, DOMAIN st.tables[e.t].rows)
          [] OTHER -> TRUE
 
 ObsTableOK(x, tb) ==
@@ -61,7 +74,13 @@ ObsOK(obs, s) ==
   /\ {obs.tables[i].t : i \in 1..Len(obs.tables)} = DOMAIN s.tables
   /\ \A i \in 1..Len(obs.tables) : ObsTableOK(obs.tables[i], s.tables[obs.tables[i].t])
 
-Explains(e, out) == RespOK(e, out.resp) /\ ObsOK(e.obs, out.st)
+\* {"same": true}: the read-back is, key samples aside, byte-for-byte the previous one of this trace (accepted for st),
+\* so it is a presentation of out.st exactly when out.st = st
+Explains(e, out) == /\ RespOK(e, out.resp)
+                    /\ IF "same" \in DOMAIN e.obs
+                       THEN /\ out.st = st
+                            /\ \A i \in 1..Len(e.obs.samps) : SampleOK(e.obs.samps[i].samp, DOMAIN st.tables[e.obs.samps[i].t].rows)
+                       ELSE ObsOK(e.obs, out.st)
 
 Init == st = InitSt /\ l = 1 /\ dead = FALSE /\ nrej = 0
 
